@@ -122,10 +122,14 @@ fn next_str<'s>(bytes: &mut &'s [u8], state: &mut State) -> Option<&'s str> {
     });
     let (_, next) = bytes.split_at(offset.unwrap_or(bytes.len()));
     *bytes = next;
-    *state = State::Ground;
+    if *state == State::Utf8 {
+        // `str` input: the rest of the character is taken below
+        *state = State::Ground;
+    }
 
+    let current = *state;
     let offset = bytes.iter().copied().position(|b| {
-        let (_next_state, action) = state_change(State::Ground, b);
+        let (_next_state, action) = state_change(current, b);
         !(is_printable_bytes(action, b) || is_utf8_continuation(b))
     });
     let (printable, next) = bytes.split_at(offset.unwrap_or(bytes.len()));
